@@ -218,7 +218,7 @@ Variable R : forest.
 Variables rootL rootR : id.
 Hypothesis HwfR : wf_forest R rootR.
 
-Record Inv (Pp Pa : list id) (s : st) : Prop := {
+Record Inv (Pp Pa Pm : list id) (s : st) : Prop := {
   I_wf : wf_forest (W s) rootL;
   I_bij : forall l r, l2r s l = Some r <-> r2l s r = Some l;
   I_root : r2l s rootR = Some rootL;
@@ -228,11 +228,12 @@ Record Inv (Pp Pa : list id) (s : st) : Prop := {
             is_comment (ltag (flab (W s) l)) = is_comment (ltag (flab R r));
   I_Pp : forall x, In x Pp -> desc R rootR x;
   I_Pa : incl Pa Pp;
+  I_Pm : incl Pm Pp;
   I_vis : forall x, In x Pp -> exists w, r2l s x = Some w;
   I_par : forall x xp w, In x Pp -> xp < fnext R -> In x (fkids R xp) -> r2l s x = Some w ->
             exists wp, r2l s xp = Some wp /\ In w (fkids (W s) wp);
   I_o1R : forall v, inoR s v = true -> exists w xp wp,
-            r2l s v = Some w /\ inoL s w = true /\ In xp Pp /\ In v (fkids R xp) /\
+            r2l s v = Some w /\ inoL s w = true /\ In xp Pm /\ In v (fkids R xp) /\
             r2l s xp = Some wp /\ In w (fkids (W s) wp);
   I_o1L : forall u, inoL s u = true -> exists v, l2r s u = Some v /\ inoR s v = true;
   I_o2 : forall w x, r2l s x = Some w ->
@@ -245,12 +246,12 @@ Lemma R_lt x : desc R rootR x -> x < fnext R.
 Proof. intros H. eapply desc_lt; [exact HwfR|apply (wf_root_lt _ _ HwfR)|exact H]. Qed.
 
 Section Facts.
-Variables (Pp Pa : list id) (s : st).
-Hypothesis HI : Inv Pp Pa s.
+Variables (Pp Pa Pm : list id) (s : st).
+Hypothesis HI : Inv Pp Pa Pm s.
 
 Lemma W_lt n : desc (W s) rootL n -> n < fnext (W s).
 Proof.
-  intros H. eapply desc_lt; [apply (I_wf _ _ _ HI)|apply (wf_root_lt _ _ (I_wf _ _ _ HI))|exact H].
+  intros H. eapply desc_lt; [apply (I_wf _ _ _ _ HI)|apply (wf_root_lt _ _ (I_wf _ _ _ _ HI))|exact H].
 Qed.
 
 Lemma Inv_lt_l l r : l2r s l = Some r -> l < fnext (W s).
@@ -261,17 +262,17 @@ Proof. intros H. apply R_lt. eapply I_aliveR; eauto. Qed.
 
 Lemma Inv_r2l_lt x w : r2l s x = Some w -> w < fnext (W s) /\ x < fnext R.
 Proof.
-  intros H. apply (I_bij _ _ _ HI) in H. split; [eapply Inv_lt_l|eapply Inv_lt_r]; eauto.
+  intros H. apply (I_bij _ _ _ _ HI) in H. split; [eapply Inv_lt_l|eapply Inv_lt_r]; eauto.
 Qed.
 
 Lemma Inv_inj_l l l' r : l2r s l = Some r -> l2r s l' = Some r -> l = l'.
 Proof.
-  intros H1 H2. apply (I_bij _ _ _ HI) in H1, H2. congruence.
+  intros H1 H2. apply (I_bij _ _ _ _ HI) in H1, H2. congruence.
 Qed.
 
 Lemma Inv_inj_r x x' w : r2l s x = Some w -> r2l s x' = Some w -> x = x'.
 Proof.
-  intros H1 H2. apply (I_bij _ _ _ HI) in H1, H2. congruence.
+  intros H1 H2. apply (I_bij _ _ _ _ HI) in H1, H2. congruence.
 Qed.
 
 Lemma Inv_fresh_unmatched : l2r s (fnext (W s)) = None.
@@ -287,9 +288,10 @@ Lemma o1R_under x w v :
   exists sm, r2l s v = Some sm /\ inoL s sm = true /\ In sm (fkids (W s) w).
 Proof.
   intros Hx Hv Hw Hm.
-  destruct (I_o1R _ _ _ HI v Hm) as (sm & xp & wp & H1 & H2 & H3 & H4 & H5 & H6).
+  destruct (I_o1R _ _ _ _ HI v Hm) as (sm & xp & wp & H1 & H2 & H3 & H4 & H5 & H6).
   assert (xp = x).
-  { apply (wf_uparent R rootR HwfR xp x v); try assumption. apply R_lt. eapply I_Pp; eauto. }
+  { apply (wf_uparent R rootR HwfR xp x v); try assumption. apply R_lt.
+    apply (I_Pp _ _ _ _ HI). apply (I_Pm _ _ _ _ HI). exact H3. }
   subst xp. exists sm. rewrite Hw in H5. inversion H5; subst. auto.
 Qed.
 
@@ -317,12 +319,12 @@ Proof.
     destruct (o1R_under x w v Hx Hvk Hw Hv) as (sm & Hsm & HLsm & Hin).
     rewrite Hsm.
     destruct (Inv_r2l_lt _ _ Hw) as [Hwlt _].
-    rewrite (parentof_of_In _ rootL sm w (I_wf _ _ _ HI) Hwlt Hin).
+    rewrite (parentof_of_In _ rootL sm w (I_wf _ _ _ _ HI) Hwlt Hin).
     apply in_split in Hin as (k1 & k2 & Ekw).
-    pose proof (wf_kids_nodup _ _ (I_wf _ _ _ HI) w Hwlt) as Hndw. unfold kidsof. rewrite Ekw in Hndw |- *.
+    pose proof (wf_kids_nodup _ _ (I_wf _ _ _ _ HI) w Hwlt) as Hndw. unfold kidsof. rewrite Ekw in Hndw |- *.
     rewrite count_to_spec.
     + eexists. split; [reflexivity|]. right. exists v, a, b, sm, k1, k2.
-      repeat split; auto. apply (I_bij _ _ _ HI). exact Hsm.
+      repeat split; auto. apply (I_bij _ _ _ _ HI). exact Hsm.
     + apply NoDup_remove_2 in Hndw. intros H; apply Hndw; apply in_or_app; left; exact H.
     + intros Hc. assert (y = v) by (eapply Inv_inj_r; eauto). subst v.
       apply Hy1. rewrite Es1. apply in_or_app. right; left; reflexivity.
@@ -338,9 +340,9 @@ Qed.
 (* the generic placement step: c (the partner of y, or a fresh node becoming
    its partner) is put under w = r2l x at the position found by find_pos, and
    the pair (c, y) is marked in order *)
-Lemma Inv_place Pp Pa s s' x y w c pos s1 s2 :
-  Inv Pp Pa s ->
-  ~ In y Pp -> desc R rootR y -> In x Pp -> fkids R x = s1 ++ y :: s2 -> r2l s x = Some w ->
+Lemma Inv_place Pp Pa Pm s s' x y w c pos s1 s2 :
+  Inv Pp Pa Pm s ->
+  ~ In y Pp -> desc R rootR y -> In x Pm -> fkids R x = s1 ++ y :: s2 -> r2l s x = Some w ->
   inoL s c = false -> inoR s y = false ->
   pos_ok (inoL s) (inoR s) (l2r s) (fkids (W s) w) s1 c pos ->
   (l2r s c = Some y \/ (c = fnext (W s) /\ r2l s y = None /\ fkids (W s') c = [])) ->
@@ -353,11 +355,12 @@ Lemma Inv_place Pp Pa s s' x y w c pos s1 s2 :
   (forall n, desc (W s) rootL n -> desc (W s') rootL n) -> desc (W s') rootL c ->
   (forall m, m <> c -> flab (W s') m = flab (W s) m) ->
   is_comment (ltag (flab (W s') c)) = is_comment (ltag (flab R y)) ->
-  Inv Pp Pa s'.
+  Inv Pp Pa Pm s'.
 Proof.
-  intros HI HyP Hy HxP Ek Hw HLc HRy Hpos Hcase Hlc Hry Hl' Hr' HmL HmR Hwf' K2 K3 K6 K6c K7 K7c.
+  intros HI HyP Hy HxM Ek Hw HLc HRy Hpos Hcase Hlc Hry Hl' Hr' HmL HmR Hwf' K2 K3 K6 K6c K7 K7c.
+  assert (HxP : In x Pp) by (apply (I_Pm _ _ _ _ HI); exact HxM).
   assert (Hxlt : x < fnext R) by (apply R_lt; eapply I_Pp; eauto).
-  destruct (Inv_r2l_lt _ _ _ HI _ _ Hw) as [Hwlt _].
+  destruct (Inv_r2l_lt _ _ _ _ HI _ _ Hw) as [Hwlt _].
   assert (Hyx : In y (fkids R x)) by (rewrite Ek; apply in_or_app; right; left; reflexivity).
   assert (Hylt : y < fnext R) by (apply R_lt; exact Hy).
   assert (Hxy : x <> y) by (intros ->; contradiction).
@@ -365,11 +368,11 @@ Proof.
   assert (A : forall l r, l2r s l = Some r -> l2r s' l = Some r).
   { intros l r H. destruct (Nat.eq_dec l c) as [->|Hne]; [|rewrite Hl'; assumption].
     destruct Hcase as [Hm|(-> & _ & _)]; [congruence|].
-    rewrite (Inv_fresh_unmatched _ _ _ HI) in H. discriminate. }
+    rewrite (Inv_fresh_unmatched _ _ _ _ HI) in H. discriminate. }
   assert (B : forall r l, r2l s r = Some l -> r2l s' r = Some l).
   { intros r l H. destruct (Nat.eq_dec r y) as [->|Hne]; [|rewrite Hr'; assumption].
     destruct Hcase as [Hm|(_ & Hn & _)]; [|congruence].
-    apply (I_bij _ _ _ HI) in Hm. congruence. }
+    apply (I_bij _ _ _ _ HI) in Hm. congruence. }
   assert (C : forall l r, l2r s' l = Some r -> (l = c /\ r = y) \/ (l <> c /\ l2r s l = Some r)).
   { intros l r H. destruct (Nat.eq_dec l c) as [->|Hne]; [left; split; congruence|].
     right. split; [exact Hne|]. rewrite <- Hl'; assumption. }
@@ -377,8 +380,8 @@ Proof.
   { intros r l H. destruct (Nat.eq_dec r y) as [->|Hne]; [left; split; congruence|].
     right. split; [exact Hne|]. rewrite <- Hr'; assumption. }
   assert (E : forall r l, r2l s r = Some l -> r <> y -> l <> c).
-  { intros r l H Hne ->. apply (I_bij _ _ _ HI) in H. destruct Hcase as [Hm|(-> & _ & _)]; [congruence|].
-    rewrite (Inv_fresh_unmatched _ _ _ HI) in H. discriminate. }
+  { intros r l H Hne ->. apply (I_bij _ _ _ _ HI) in H. destruct Hcase as [Hm|(-> & _ & _)]; [congruence|].
+    rewrite (Inv_fresh_unmatched _ _ _ _ HI) in H. discriminate. }
   assert (F : forall p u, p < fnext (W s) -> u <> c -> (In u (fkids (W s') p) <-> In u (fkids (W s) p))).
   { intros p u Hp Hu. destruct (Nat.eq_dec p w) as [->|Hne].
     - rewrite K3, ins_at_In, remove_id_In. tauto.
@@ -394,141 +397,146 @@ Proof.
   constructor.
   - exact Hwf'.
   - intros l r. split; intros H.
-    + apply C in H as [[-> ->]|[Hne H]]; [exact Hry|]. apply B. apply (I_bij _ _ _ HI). exact H.
-    + apply D in H as [[-> ->]|[Hne H]]; [exact Hlc|]. apply A. apply (I_bij _ _ _ HI). exact H.
-  - apply B. apply (I_root _ _ _ HI).
+    + apply C in H as [[-> ->]|[Hne H]]; [exact Hry|]. apply B. apply (I_bij _ _ _ _ HI). exact H.
+    + apply D in H as [[-> ->]|[Hne H]]; [exact Hlc|]. apply A. apply (I_bij _ _ _ _ HI). exact H.
+  - apply B. apply (I_root _ _ _ _ HI).
   - intros l r H. apply C in H as [[-> ->]|[Hne H]]; [exact K6c|]. apply K6. eapply I_aliveL; eauto.
   - intros l r H. apply C in H as [[-> ->]|[Hne H]]; [exact Hy|]. eapply I_aliveR; eauto.
   - intros l r H. apply C in H as [[-> ->]|[Hne H]]; [exact K7c|]. rewrite K7 by exact Hne.
     eapply I_cmt; eauto.
-  - apply (I_Pp _ _ _ HI).
-  - apply (I_Pa _ _ _ HI).
-  - intros x' Hx'. destruct (I_vis _ _ _ HI x' Hx') as [w' Hw']. exists w'. apply B. exact Hw'.
+  - apply (I_Pp _ _ _ _ HI).
+  - apply (I_Pa _ _ _ _ HI).
+  - apply (I_Pm _ _ _ _ HI).
+  - intros x' Hx'. destruct (I_vis _ _ _ _ HI x' Hx') as [w' Hw']. exists w'. apply B. exact Hw'.
   - intros x' xp w' Hx' Hxp Hin H. apply D in H as [[-> _]|[Hne H]]; [contradiction|].
-    destruct (I_par _ _ _ HI x' xp w' Hx' Hxp Hin H) as (wp & Hwp & Hin').
+    destruct (I_par _ _ _ _ HI x' xp w' Hx' Hxp Hin H) as (wp & Hwp & Hin').
     exists wp. split; [apply B; exact Hwp|]. apply F; [|eapply E; eauto|exact Hin'].
-    apply (Inv_r2l_lt _ _ _ HI _ _ Hwp).
+    apply (Inv_r2l_lt _ _ _ _ HI _ _ Hwp).
   - intros v Hv. rewrite HmR in Hv. destruct (Nat.eq_dec v y) as [->|Hne].
     + exists c, x, w. rewrite HmL, upd_same. repeat split; auto.
     + rewrite upd_other in Hv by exact Hne.
-      destruct (I_o1R _ _ _ HI v Hv) as (wv & xp & wp & H1 & H2 & H3 & H4 & H5 & H6).
+      destruct (I_o1R _ _ _ _ HI v Hv) as (wv & xp & wp & H1 & H2 & H3 & H4 & H5 & H6).
       exists wv, xp, wp. rewrite HmL. repeat split; auto.
       * unfold upd. destruct (Nat.eqb wv c); [reflexivity|exact H2].
-      * apply F; [apply (Inv_r2l_lt _ _ _ HI _ _ H5)|intros ->; congruence|exact H6].
+      * apply F; [apply (Inv_r2l_lt _ _ _ _ HI _ _ H5)|intros ->; congruence|exact H6].
   - intros u Hu. rewrite HmL in Hu. rewrite HmR. destruct (Nat.eq_dec u c) as [->|Hne].
     + exists y. rewrite upd_same. auto.
-    + rewrite upd_other in Hu by exact Hne. destruct (I_o1L _ _ _ HI u Hu) as (v & H1 & H2).
+    + rewrite upd_other in Hu by exact Hne. destruct (I_o1L _ _ _ _ HI u Hu) as (v & H1 & H2).
       exists v. split; [apply A; exact H1|]. unfold upd. destruct (Nat.eqb v y); [reflexivity|exact H2].
   - intros w' x' H. rewrite HmL, HmR. apply D in H as [[-> ->]|[Hne H]].
     + rewrite (filter_upd_notin (inoR s) y (fkids R y) Hyy).
       destruct Hcase as [Hm|(_ & _ & Hnil)].
       * assert (Hcw : c <> w).
-        { intros ->. apply Hxy. eapply (Inv_inj_r _ _ _ HI); eauto. apply (I_bij _ _ _ HI). exact Hm. }
+        { intros ->. apply Hxy. eapply (Inv_inj_r _ _ _ _ HI); eauto. apply (I_bij _ _ _ _ HI). exact Hm. }
         rewrite K2; [|eapply Inv_lt_l; eauto|exact Hcw].
-        rewrite HkeepL. apply (I_o2 _ _ _ HI). apply (I_bij _ _ _ HI). exact Hm.
+        rewrite HkeepL. apply (I_o2 _ _ _ _ HI). apply (I_bij _ _ _ _ HI). exact Hm.
       * rewrite Hnil. cbn. symmetry. rewrite filter_all_false; [reflexivity|]. intros z Hz.
         destruct (inoR s z) eqn:Ez; [|reflexivity]. exfalso.
-        destruct (I_o1R _ _ _ HI z Ez) as (wv & xp & wp & H1 & H2 & H3 & H4 & H5 & H6).
+        destruct (I_o1R _ _ _ _ HI z Ez) as (wv & xp & wp & H1 & H2 & H3 & H4 & H5 & H6).
         assert (xp = y).
-        { apply (wf_uparent R rootR HwfR xp y z); try assumption. apply R_lt. eapply I_Pp; eauto. }
-        subst xp. contradiction.
-    + destruct (Inv_r2l_lt _ _ _ HI _ _ H) as [Hw'lt Hx'lt].
+        { apply (wf_uparent R rootR HwfR xp y z); try assumption. apply R_lt.
+          apply (I_Pp _ _ _ _ HI). apply (I_Pm _ _ _ _ HI). exact H3. }
+        subst xp. apply HyP. apply (I_Pm _ _ _ _ HI). exact H3.
+    + destruct (Inv_r2l_lt _ _ _ _ HI _ _ H) as [Hw'lt Hx'lt].
       destruct (Nat.eq_dec w' w) as [->|Hnw].
-      * assert (x' = x) by (eapply (Inv_inj_r _ _ _ HI); eauto). subst x'.
+      * assert (x' = x) by (eapply (Inv_inj_r _ _ _ _ HI); eauto). subst x'.
         rewrite K3, Ek.
         refine (proj2 (place_order (l2r s) (l2r s') (inoL s) (inoR s) (fkids (W s) w) s1 s2 c y pos
                          _ _ _ HRy HLc _ Hlc _ Hpos)).
-        -- rewrite <- Ek. apply (I_o2 _ _ _ HI). exact H.
-        -- apply (wf_kids_nodup _ _ (I_wf _ _ _ HI)). exact Hwlt.
+        -- rewrite <- Ek. apply (I_o2 _ _ _ _ HI). exact H.
+        -- apply (wf_kids_nodup _ _ (I_wf _ _ _ _ HI)). exact Hwlt.
         -- rewrite <- Ek. apply (wf_kids_nodup _ _ HwfR). exact Hxlt.
         -- intros u _ Hu. apply Hl'. exact Hu.
-        -- intros u u' r _ _. apply (Inv_inj_l _ _ _ HI).
+        -- intros u u' r _ _. apply (Inv_inj_l _ _ _ _ HI).
       * rewrite K2 by assumption. rewrite HkeepL.
-        rewrite filter_upd_notin; [apply (I_o2 _ _ _ HI); exact H|].
+        rewrite filter_upd_notin; [apply (I_o2 _ _ _ _ HI); exact H|].
         intros Hin. apply Hnw.
         assert (x' = x) by (apply (wf_uparent R rootR HwfR x' x y); assumption). subst x'. congruence.
   - intros x' w' c' y' Hx' H Hc' Hl Hy'. rewrite HmL. destruct (Nat.eq_dec c' c) as [->|Hne]; [apply upd_same|].
     rewrite upd_other by exact Hne.
-    assert (Hx'y : x' <> y) by (intros ->; apply HyP; apply (I_Pa _ _ _ HI); exact Hx').
+    assert (Hx'y : x' <> y) by (intros ->; apply HyP; apply (I_Pa _ _ _ _ HI); exact Hx').
     apply D in H as [[? _]|[_ H]]; [contradiction|].
     apply C in Hl as [[? _]|[_ Hl]]; [contradiction|].
-    eapply (I_o3 _ _ _ HI); eauto. apply F in Hc'; [exact Hc'| |exact Hne].
-    apply (Inv_r2l_lt _ _ _ HI _ _ H).
+    eapply (I_o3 _ _ _ _ HI); eauto. apply F in Hc'; [exact Hc'| |exact Hne].
+    apply (Inv_r2l_lt _ _ _ _ HI _ _ H).
 Qed.
 
 (* label-only changes *)
-Lemma Inv_shape Pp Pa s s' :
-  Inv Pp Pa s -> l2r s' = l2r s -> r2l s' = r2l s -> inoL s' = inoL s -> inoR s' = inoR s ->
+Lemma Inv_shape Pp Pa Pm s s' :
+  Inv Pp Pa Pm s -> l2r s' = l2r s -> r2l s' = r2l s -> inoL s' = inoL s -> inoR s' = inoR s ->
   fkids (W s') = fkids (W s) -> wf_forest (W s') rootL ->
   (forall l r, l2r s l = Some r ->
      is_comment (ltag (flab (W s') l)) = is_comment (ltag (flab (W s) l))) ->
-  Inv Pp Pa s'.
+  Inv Pp Pa Pm s'.
 Proof.
   intros HI E1 E2 E3 E4 Ek Hwf Hc.
   constructor; rewrite ?E1, ?E2, ?E3, ?E4, ?Ek.
   - exact Hwf.
-  - apply (I_bij _ _ _ HI).
-  - apply (I_root _ _ _ HI).
+  - apply (I_bij _ _ _ _ HI).
+  - apply (I_root _ _ _ _ HI).
   - intros l r H. eapply desc_ext; [|eapply I_aliveL; eauto]. intros p. rewrite Ek. reflexivity.
-  - apply (I_aliveR _ _ _ HI).
+  - apply (I_aliveR _ _ _ _ HI).
   - intros l r H. rewrite (Hc l r H). eapply I_cmt; eauto.
-  - apply (I_Pp _ _ _ HI).
-  - apply (I_Pa _ _ _ HI).
-  - apply (I_vis _ _ _ HI).
-  - apply (I_par _ _ _ HI).
-  - apply (I_o1R _ _ _ HI).
-  - apply (I_o1L _ _ _ HI).
-  - apply (I_o2 _ _ _ HI).
-  - apply (I_o3 _ _ _ HI).
+  - apply (I_Pp _ _ _ _ HI).
+  - apply (I_Pa _ _ _ _ HI).
+  - apply (I_Pm _ _ _ _ HI).
+  - apply (I_vis _ _ _ _ HI).
+  - apply (I_par _ _ _ _ HI).
+  - apply (I_o1R _ _ _ _ HI).
+  - apply (I_o1L _ _ _ _ HI).
+  - apply (I_o2 _ _ _ _ HI).
+  - apply (I_o3 _ _ _ _ HI).
 Qed.
 
 (* y has been placed *)
-Lemma Inv_extend Pp Pa s y c :
-  Inv Pp Pa s -> desc R rootR y -> r2l s y = Some c ->
+Lemma Inv_extend Pp Pa Pm s y c :
+  Inv Pp Pa Pm s -> desc R rootR y -> r2l s y = Some c ->
   (forall xp, xp < fnext R -> In y (fkids R xp) ->
      exists wp, r2l s xp = Some wp /\ In c (fkids (W s) wp)) ->
-  Inv (Pp ++ [y]) Pa s.
+  Inv (Pp ++ [y]) Pa Pm s.
 Proof.
   intros HI Hy Hc Hpar. constructor.
-  - apply (I_wf _ _ _ HI).
-  - apply (I_bij _ _ _ HI).
-  - apply (I_root _ _ _ HI).
-  - apply (I_aliveL _ _ _ HI).
-  - apply (I_aliveR _ _ _ HI).
-  - apply (I_cmt _ _ _ HI).
+  - apply (I_wf _ _ _ _ HI).
+  - apply (I_bij _ _ _ _ HI).
+  - apply (I_root _ _ _ _ HI).
+  - apply (I_aliveL _ _ _ _ HI).
+  - apply (I_aliveR _ _ _ _ HI).
+  - apply (I_cmt _ _ _ _ HI).
   - intros x Hx. apply in_app_or in Hx as [Hx|[<-|[]]]; [eapply I_Pp; eauto|exact Hy].
-  - intros x Hx. apply in_or_app. left. apply (I_Pa _ _ _ HI). exact Hx.
+  - intros x Hx. apply in_or_app. left. apply (I_Pa _ _ _ _ HI). exact Hx.
+  - intros x Hx. apply in_or_app. left. apply (I_Pm _ _ _ _ HI). exact Hx.
   - intros x Hx. apply in_app_or in Hx as [Hx|[<-|[]]]; [eapply I_vis; eauto|eauto].
   - intros x xp w Hx Hxp Hin Hw. apply in_app_or in Hx as [Hx|[<-|[]]]; [eapply I_par; eauto|].
     rewrite Hc in Hw. inversion Hw; subst. apply Hpar; assumption.
-  - intros v Hv. destruct (I_o1R _ _ _ HI v Hv) as (w & xp & wp & H1 & H2 & H3 & H4).
-    exists w, xp, wp. repeat split; try tauto. apply in_or_app. left; exact H3.
-  - apply (I_o1L _ _ _ HI).
-  - apply (I_o2 _ _ _ HI).
-  - apply (I_o3 _ _ _ HI).
+  - intros v Hv. destruct (I_o1R _ _ _ _ HI v Hv) as (w & xp & wp & H1 & H2 & H3 & H4).
+    exists w, xp, wp. repeat split; tauto.
+  - apply (I_o1L _ _ _ _ HI).
+  - apply (I_o2 _ _ _ _ HI).
+  - apply (I_o3 _ _ _ _ HI).
 Qed.
 
 (* the children of y have been aligned *)
-Lemma Inv_aligned Pp Pa s y :
-  Inv Pp Pa s -> In y Pp ->
+Lemma Inv_aligned Pp Pa Pm s y :
+  Inv Pp Pa Pm s -> In y Pp ->
   (forall w c z, r2l s y = Some w -> In c (fkids (W s) w) -> l2r s c = Some z ->
                  In z (fkids R y) -> inoL s c = true) ->
-  Inv Pp (Pa ++ [y]) s.
+  Inv Pp (Pa ++ [y]) Pm s.
 Proof.
   intros HI Hy H3. constructor.
-  - apply (I_wf _ _ _ HI).
-  - apply (I_bij _ _ _ HI).
-  - apply (I_root _ _ _ HI).
-  - apply (I_aliveL _ _ _ HI).
-  - apply (I_aliveR _ _ _ HI).
-  - apply (I_cmt _ _ _ HI).
-  - apply (I_Pp _ _ _ HI).
-  - intros x Hx. apply in_app_or in Hx as [Hx|[<-|[]]]; [apply (I_Pa _ _ _ HI); exact Hx|exact Hy].
-  - apply (I_vis _ _ _ HI).
-  - apply (I_par _ _ _ HI).
-  - apply (I_o1R _ _ _ HI).
-  - apply (I_o1L _ _ _ HI).
-  - apply (I_o2 _ _ _ HI).
+  - apply (I_wf _ _ _ _ HI).
+  - apply (I_bij _ _ _ _ HI).
+  - apply (I_root _ _ _ _ HI).
+  - apply (I_aliveL _ _ _ _ HI).
+  - apply (I_aliveR _ _ _ _ HI).
+  - apply (I_cmt _ _ _ _ HI).
+  - apply (I_Pp _ _ _ _ HI).
+  - intros x Hx. apply in_app_or in Hx as [Hx|[<-|[]]]; [apply (I_Pa _ _ _ _ HI); exact Hx|exact Hy].
+  - apply (I_Pm _ _ _ _ HI).
+  - apply (I_vis _ _ _ _ HI).
+  - apply (I_par _ _ _ _ HI).
+  - apply (I_o1R _ _ _ _ HI).
+  - apply (I_o1L _ _ _ _ HI).
+  - apply (I_o2 _ _ _ _ HI).
   - intros x w c z Hx. apply in_app_or in Hx as [Hx|[<-|[]]]; [eapply I_o3; eauto|apply H3].
 Qed.
 
@@ -546,18 +554,18 @@ Proof.
 Qed.
 
 (* marking an order-preserving set of matched children of (ln, rn) *)
-Lemma Inv_marks Pp Pa s s' ln rn SL SR :
-  Inv Pp Pa s -> In rn Pp -> r2l s rn = Some ln ->
+Lemma Inv_marks Pp Pa Pm s s' ln rn SL SR :
+  Inv Pp Pa Pm s -> In rn Pm -> r2l s rn = Some ln ->
   W s' = W s -> l2r s' = l2r s -> r2l s' = r2l s ->
   (forall u, inoL s' u = inoL s u || mem u SL) -> (forall v, inoR s' v = inoR s v || mem v SR) ->
   map (l2r s) SL = map Some SR ->
   filter (fun u => mem u SL) (fkids (W s) ln) = SL ->
   filter (fun v => mem v SR) (fkids R rn) = SR ->
   (forall v, In v (fkids R rn) -> inoR s v = false) ->
-  Inv Pp Pa s'.
+  Inv Pp Pa Pm s'.
 Proof.
   intros HI Hrn Hln EW El Er HmL HmR Hmap HfL HfR Hnone.
-  destruct (Inv_r2l_lt _ _ _ HI _ _ Hln) as [Hlnlt Hrnlt].
+  destruct (Inv_r2l_lt _ _ _ _ HI _ _ Hln) as [Hlnlt Hrnlt].
   destruct (map_eq_Some_In _ _ _ Hmap) as [MapL MapR].
   assert (HSL : forall u, In u SL -> In u (fkids (W s) ln)).
   { intros u Hu. rewrite <- HfL in Hu. apply filter_In in Hu. tauto. }
@@ -565,34 +573,35 @@ Proof.
   { intros v Hv. rewrite <- HfR in Hv. apply filter_In in Hv. tauto. }
   assert (HnoneL : forall u, In u (fkids (W s) ln) -> inoL s u = false).
   { intros u Hu. destruct (inoL s u) eqn:E; [|reflexivity]. exfalso.
-    destruct (I_o1L _ _ _ HI u E) as (v & Hv & Ev).
-    destruct (I_o1R _ _ _ HI v Ev) as (wv & xp & wp & H1 & H2 & H3 & H4 & H5 & H6).
-    apply (I_bij _ _ _ HI) in Hv. rewrite Hv in H1. inversion H1; subst wv.
+    destruct (I_o1L _ _ _ _ HI u E) as (v & Hv & Ev).
+    destruct (I_o1R _ _ _ _ HI v Ev) as (wv & xp & wp & H1 & H2 & H3 & H4 & H5 & H6).
+    apply (I_bij _ _ _ _ HI) in Hv. rewrite Hv in H1. inversion H1; subst wv.
     assert (wp = ln).
-    { apply (wf_uparent _ _ (I_wf _ _ _ HI) wp ln u); try assumption.
-      apply (Inv_r2l_lt _ _ _ HI _ _ H5). }
-    subst wp. assert (xp = rn) by (eapply (Inv_inj_r _ _ _ HI); eauto). subst xp.
+    { apply (wf_uparent _ _ (I_wf _ _ _ _ HI) wp ln u); try assumption.
+      apply (Inv_r2l_lt _ _ _ _ HI _ _ H5). }
+    subst wp. assert (xp = rn) by (eapply (Inv_inj_r _ _ _ _ HI); eauto). subst xp.
     rewrite (Hnone v H4) in Ev. discriminate. }
   constructor; rewrite ?EW, ?El, ?Er.
-  - apply (I_wf _ _ _ HI).
-  - apply (I_bij _ _ _ HI).
-  - apply (I_root _ _ _ HI).
-  - apply (I_aliveL _ _ _ HI).
-  - apply (I_aliveR _ _ _ HI).
-  - apply (I_cmt _ _ _ HI).
-  - apply (I_Pp _ _ _ HI).
-  - apply (I_Pa _ _ _ HI).
-  - apply (I_vis _ _ _ HI).
-  - apply (I_par _ _ _ HI).
+  - apply (I_wf _ _ _ _ HI).
+  - apply (I_bij _ _ _ _ HI).
+  - apply (I_root _ _ _ _ HI).
+  - apply (I_aliveL _ _ _ _ HI).
+  - apply (I_aliveR _ _ _ _ HI).
+  - apply (I_cmt _ _ _ _ HI).
+  - apply (I_Pp _ _ _ _ HI).
+  - apply (I_Pa _ _ _ _ HI).
+  - apply (I_Pm _ _ _ _ HI).
+  - apply (I_vis _ _ _ _ HI).
+  - apply (I_par _ _ _ _ HI).
   - intros v Hv. rewrite HmR in Hv. apply orb_true_iff in Hv as [Hv|Hv].
-    + destruct (I_o1R _ _ _ HI v Hv) as (wv & xp & wp & H1 & H2 & H3).
+    + destruct (I_o1R _ _ _ _ HI v Hv) as (wv & xp & wp & H1 & H2 & H3).
       exists wv, xp, wp. rewrite HmL, H2. tauto.
     + apply mem_In in Hv. destruct (MapR v Hv) as (u & Hu & E).
       exists u, rn, ln. rewrite HmL. repeat split; auto.
-      * apply (I_bij _ _ _ HI). exact E.
+      * apply (I_bij _ _ _ _ HI). exact E.
       * apply orb_true_iff. right. apply mem_In. exact Hu.
   - intros u Hu. rewrite HmL in Hu. apply orb_true_iff in Hu as [Hu|Hu].
-    + destruct (I_o1L _ _ _ HI u Hu) as (v & H1 & H2). exists v. rewrite HmR, H2. auto.
+    + destruct (I_o1L _ _ _ _ HI u Hu) as (v & H1 & H2). exists v. rewrite HmR, H2. auto.
     + apply mem_In in Hu. destruct (MapL u Hu) as (v & Hv & E). exists v. split; [exact E|].
       rewrite HmR. apply orb_true_iff. right. apply mem_In. exact Hv.
   - intros w x Hw.
@@ -604,78 +613,78 @@ Proof.
       rewrite (filter_ext_in' (fun v => inoR s v || mem v SR) (fun v => mem v SR)).
       2:{ intros v Hv. rewrite (Hnone v Hv). reflexivity. }
       rewrite HfL, HfR. exact Hmap.
-    + destruct (Inv_r2l_lt _ _ _ HI _ _ Hw) as [Hwlt Hxlt].
+    + destruct (Inv_r2l_lt _ _ _ _ HI _ _ Hw) as [Hwlt Hxlt].
       rewrite (filter_ext_in' _ (inoL s)).
       2:{ intros u Hu. replace (mem u SL) with false; [apply orb_false_r|]. symmetry. apply mem_false.
           intros Hin. apply Hne. apply HSL in Hin.
-          assert (w = ln) by (apply (wf_uparent _ _ (I_wf _ _ _ HI) w ln u); assumption).
-          subst w. eapply (Inv_inj_r _ _ _ HI); eauto. }
+          assert (w = ln) by (apply (wf_uparent _ _ (I_wf _ _ _ _ HI) w ln u); assumption).
+          subst w. eapply (Inv_inj_r _ _ _ _ HI); eauto. }
       rewrite (filter_ext_in' (fun v => inoR s v || mem v SR) (inoR s)).
       2:{ intros v Hv. replace (mem v SR) with false; [apply orb_false_r|]. symmetry. apply mem_false.
           intros Hin. apply Hne. apply HSR in Hin.
           apply (wf_uparent R rootR HwfR x rn v); assumption. }
-      apply (I_o2 _ _ _ HI). exact Hw.
-  - intros x w c y Hx Hw Hc Hl Hy. rewrite HmL. rewrite (I_o3 _ _ _ HI x w c y); auto.
+      apply (I_o2 _ _ _ _ HI). exact Hw.
+  - intros x w c y Hx Hw Hc Hl Hy. rewrite HmL. rewrite (I_o3 _ _ _ _ HI x w c y); auto.
 Qed.
 
 (* the ancestors of the partner of a placed node are partners of its ancestors *)
 Definition P_closed (Pp : list id) : Prop :=
   forall x, In x Pp -> x = rootR \/ exists xp, In xp Pp /\ In x (fkids R xp).
 
-Lemma anc_matched Pp Pa s a : Inv Pp Pa s -> P_closed Pp -> a < fnext (W s) ->
+Lemma anc_matched Pp Pa Pm s a : Inv Pp Pa Pm s -> P_closed Pp -> a < fnext (W s) ->
   forall n, desc (W s) a n -> forall x, In x Pp -> r2l s x = Some n ->
   exists x', r2l s x' = Some a /\ desc R x' x.
 Proof.
   intros HI Hcl Ha n Hd. induction Hd as [|b c Hd IH Hin]; intros x Hx Hw.
   - exists x. split; [exact Hw|constructor].
-  - assert (Hb : b < fnext (W s)) by (eapply desc_lt; [apply (I_wf _ _ _ HI)|exact Ha|exact Hd]).
+  - assert (Hb : b < fnext (W s)) by (eapply desc_lt; [apply (I_wf _ _ _ _ HI)|exact Ha|exact Hd]).
     destruct (Hcl x Hx) as [->|(xp & Hxp & Hin')].
-    + rewrite (I_root _ _ _ HI) in Hw. inversion Hw; subst c.
-      exfalso. eapply (wf_root_top _ _ (I_wf _ _ _ HI)); eauto.
+    + rewrite (I_root _ _ _ _ HI) in Hw. inversion Hw; subst c.
+      exfalso. eapply (wf_root_top _ _ (I_wf _ _ _ _ HI)); eauto.
     + assert (Hxplt : xp < fnext R) by (apply R_lt; eapply I_Pp; eauto).
-      destruct (I_par _ _ _ HI x xp c Hx Hxplt Hin' Hw) as (wp & Hwp & Hcwp).
+      destruct (I_par _ _ _ _ HI x xp c Hx Hxplt Hin' Hw) as (wp & Hwp & Hcwp).
       assert (wp = b).
-      { apply (wf_uparent _ _ (I_wf _ _ _ HI) wp b c); try assumption.
-        apply (Inv_r2l_lt _ _ _ HI _ _ Hwp). }
+      { apply (wf_uparent _ _ (I_wf _ _ _ _ HI) wp b c); try assumption.
+        apply (Inv_r2l_lt _ _ _ _ HI _ _ Hwp). }
       subst wp. destruct (IH xp Hxp Hwp) as (x' & H1 & H2).
       exists x'. split; [exact H1|]. eapply desc_step; eauto.
 Qed.
 
-Lemma move_target_ok Pp Pa s x y w c :
-  Inv Pp Pa s -> P_closed Pp -> In x Pp -> In y (fkids R x) ->
+Lemma move_target_ok Pp Pa Pm s x y w c :
+  Inv Pp Pa Pm s -> P_closed Pp -> In x Pp -> In y (fkids R x) ->
   r2l s x = Some w -> r2l s y = Some c -> ~ desc (W s) c w.
 Proof.
   intros HI Hcl Hx Hyx Hw Hc Hd.
-  destruct (Inv_r2l_lt _ _ _ HI _ _ Hc) as [Hclt _].
-  destruct (anc_matched Pp Pa s c HI Hcl Hclt w Hd x Hx Hw) as (x' & H1 & H2).
-  assert (x' = y) by (eapply (Inv_inj_r _ _ _ HI); eauto). subst x'.
+  destruct (Inv_r2l_lt _ _ _ _ HI _ _ Hc) as [Hclt _].
+  destruct (anc_matched Pp Pa Pm s c HI Hcl Hclt w Hd x Hx Hw) as (x' & H1 & H2).
+  assert (x' = y) by (eapply (Inv_inj_r _ _ _ _ HI); eauto). subst x'.
   eapply (no_cycle R rootR x y HwfR); eauto. eapply I_Pp; eauto.
 Qed.
 
-Lemma target_elem Pp Pa s x y w :
-  Inv Pp Pa s -> r2l s x = Some w -> In y (fkids R x) -> is_comment (ltag (flab (W s) w)) = false.
+Lemma target_elem Pp Pa Pm s x y w :
+  Inv Pp Pa Pm s -> r2l s x = Some w -> In y (fkids R x) -> is_comment (ltag (flab (W s) w)) = false.
 Proof.
-  intros HI Hw Hy. apply (I_bij _ _ _ HI) in Hw. rewrite (I_cmt _ _ _ HI _ _ Hw).
+  intros HI Hw Hy. apply (I_bij _ _ _ _ HI) in Hw. rewrite (I_cmt _ _ _ _ HI _ _ Hw).
   destruct (is_comment (ltag (flab R x))) eqn:E; [|reflexivity].
-  destruct (wf_comment R rootR HwfR x (Inv_lt_r _ _ _ HI _ _ Hw) E) as [Hk _].
+  destruct (wf_comment R rootR HwfR x (Inv_lt_r _ _ _ _ HI _ _ Hw) E) as [Hk _].
   rewrite Hk in Hy. contradiction.
 Qed.
 
-Lemma pos_ok_of_find Pp Pa s x y w s1 s2 c :
-  Inv Pp Pa s -> x < fnext R -> fkids R x = s1 ++ y :: s2 -> r2l s x = Some w ->
+Lemma pos_ok_of_find Pp Pa Pm s x y w s1 s2 c :
+  Inv Pp Pa Pm s -> x < fnext R -> fkids R x = s1 ++ y :: s2 -> r2l s x = Some w ->
   (r2l s y = Some c \/ (r2l s y = None /\ c = fnext (W s))) ->
   exists pos, find_pos R s y = Some pos /\
               pos_ok (inoL s) (inoR s) (l2r s) (fkids (W s) w) s1 c pos.
 Proof.
   intros HI Hx Ek Hw Hc.
-  destruct (find_pos_spec _ _ _ HI x y w s1 s2 Hx Ek Hw) as (pos & Hf & Hp).
+  destruct (find_pos_spec _ _ _ _ HI x y w s1 s2 Hx Ek Hw) as (pos & Hf & Hp).
   exists pos. split; [exact Hf|].
   destruct Hp as [Hp|(v & a & b & sm & k1 & k2 & H1 & H2 & H3 & H4 & H5 & H6 & H7)]; [left; exact Hp|].
   right. exists v, a, b, sm, k1, k2. repeat split; auto. rewrite H7. f_equal. f_equal.
   destruct Hc as [->|[-> ->]]; [reflexivity|]. cbn [rm]. symmetry. apply remove_id_notin.
-  intros Hin. destruct (Inv_r2l_lt _ _ _ HI _ _ Hw) as [Hwlt _].
+  intros Hin. destruct (Inv_r2l_lt _ _ _ _ HI _ _ Hw) as [Hwlt _].
   assert (fnext (W s) < fnext (W s)); [|lia].
-  apply (wf_kids_lt _ _ (I_wf _ _ _ HI) w _ Hwlt). rewrite H6. apply in_or_app. left; exact Hin.
+  apply (wf_kids_lt _ _ (I_wf _ _ _ _ HI) w _ Hwlt). rewrite H6. apply in_or_app. left; exact Hin.
 Qed.
 
 Lemma spec_apply_ins f t pos y :
@@ -700,28 +709,29 @@ Qed.
 Lemma new_act_not_ns t pos n y : is_ns_action (fst (new_act R t pos n y)) = false.
 Proof. unfold new_act. destruct (ltag (labof R y)); reflexivity. Qed.
 
-Lemma Inv_do_ins Pp Pa s x y w s1 s2 pos :
-  Inv Pp Pa s -> ~ In y Pp -> desc R rootR y -> In x Pp -> fkids R x = s1 ++ y :: s2 ->
+Lemma Inv_do_ins Pp Pa Pm s x y w s1 s2 pos :
+  Inv Pp Pa Pm s -> ~ In y Pp -> desc R rootR y -> In x Pm -> fkids R x = s1 ++ y :: s2 ->
   r2l s x = Some w -> r2l s y = None ->
   pos_ok (inoL s) (inoR s) (l2r s) (fkids (W s) w) s1 (fnext (W s)) pos ->
   let s' := do_ins R s w pos y in
-  Inv (Pp ++ [y]) Pa s' /\ Step true rootL s s' /\ r2l s' y = Some (fnext (W s)).
+  Inv (Pp ++ [y]) Pa Pm s' /\ Step true rootL s s' /\ r2l s' y = Some (fnext (W s)).
 Proof.
-  intros HI HyP Hy HxP Ek Hw Hyn Hpos s'.
+  intros HI HyP Hy HxM Ek Hw Hyn Hpos s'.
+  assert (HxP : In x Pp) by (apply (I_Pm _ _ _ _ HI); exact HxM).
   set (n := fnext (W s)) in *.
   set (lab := snd (new_act R w pos n y)).
   assert (Hxlt : x < fnext R) by (apply R_lt; eapply I_Pp; eauto).
-  destruct (Inv_r2l_lt _ _ _ HI _ _ Hw) as [Hwlt _].
+  destruct (Inv_r2l_lt _ _ _ _ HI _ _ Hw) as [Hwlt _].
   assert (Hyx : In y (fkids R x)) by (rewrite Ek; apply in_or_app; right; left; reflexivity).
-  pose proof (I_wf _ _ _ HI) as Hwf.
-  assert (Hwalive : desc (W s) rootL w) by (eapply I_aliveL; [exact HI|apply (I_bij _ _ _ HI); exact Hw]).
+  pose proof (I_wf _ _ _ _ HI) as Hwf.
+  assert (Hwalive : desc (W s) rootL w) by (eapply I_aliveL; [exact HI|apply (I_bij _ _ _ _ HI); exact Hw]).
   assert (Hwe : is_comment (ltag (flab (W s) w)) = false) by (eapply target_elem; eauto).
   destruct (new_act_label w pos n y) as (L1 & L2 & L3 & L4 & L5). fold lab in L1, L2, L3, L4, L5.
   assert (HLc : inoL s n = false).
-  { destruct (inoL s n) eqn:E; [|reflexivity]. destruct (I_o1L _ _ _ HI n E) as (v & Hv & _).
-    unfold n in Hv. rewrite (Inv_fresh_unmatched _ _ _ HI) in Hv. discriminate. }
+  { destruct (inoL s n) eqn:E; [|reflexivity]. destruct (I_o1L _ _ _ _ HI n E) as (v & Hv & _).
+    unfold n in Hv. rewrite (Inv_fresh_unmatched _ _ _ _ HI) in Hv. discriminate. }
   assert (HRy : inoR s y = false).
-  { destruct (inoR s y) eqn:E; [|reflexivity]. destruct (I_o1R _ _ _ HI y E) as (wv & ? & ? & Hv & _).
+  { destruct (inoR s y) eqn:E; [|reflexivity]. destruct (I_o1R _ _ _ _ HI y E) as (wv & ? & ? & Hv & _).
     congruence. }
   assert (Hnotin : forall p, p < n -> ~ In n (fkids (W s) p)).
   { intros p Hp Hin. assert (n < n); [|lia]. apply (wf_kids_lt _ _ Hwf p n Hp Hin). }
@@ -731,8 +741,8 @@ Proof.
   assert (Hposle : pos <= length (fkids (W s) w)).
   { destruct Hpos as [[_ ->]|(v & a & b & sm & k1 & k2 & _ & _ & _ & _ & _ & E6 & ->)]; [lia|].
     rewrite E6, app_length. cbn. pose proof (remove_id_length n k1). lia. }
-  assert (HInv : Inv Pp Pa s').
-  { apply (Inv_place Pp Pa s s' x y w n pos s1 s2); try assumption.
+  assert (HInv : Inv Pp Pa Pm s').
+  { apply (Inv_place Pp Pa Pm s s' x y w n pos s1 s2); try assumption.
     - right. split; [reflexivity|]. split; [exact Hyn|]. rewrite HW'. apply fkids_ins_new. exact Hwlt.
     - cbn. apply upd_same.
     - cbn. apply upd_same.
@@ -749,7 +759,7 @@ Proof.
     - intros m Hm. rewrite HW', flab_ins. apply Nat.eqb_neq in Hm. fold n. rewrite Hm. reflexivity.
     - rewrite HW', flab_ins. fold n. rewrite Nat.eqb_refl. exact L1. }
   split; [|split].
-  - apply (Inv_extend Pp Pa s' y n); [exact HInv|exact Hy|cbn; apply upd_same|].
+  - apply (Inv_extend Pp Pa Pm s' y n); [exact HInv|exact Hy|cbn; apply upd_same|].
     intros xp Hxp Hin. assert (xp = x) by (apply (wf_uparent R rootR HwfR xp x y); assumption). subst xp.
     exists w. split.
     + cbn. rewrite upd_other by (intros ->; contradiction). exact Hw.
@@ -764,31 +774,32 @@ Proof.
   - cbn. apply upd_same.
 Qed.
 
-Lemma Inv_do_move Pp Pa s x y w c s1 s2 pos :
-  Inv Pp Pa s -> ~ In y Pp -> In x Pp -> fkids R x = s1 ++ y :: s2 ->
+Lemma Inv_do_move Pp Pa Pm s x y w c s1 s2 pos :
+  Inv Pp Pa Pm s -> ~ In y Pp -> In x Pm -> fkids R x = s1 ++ y :: s2 ->
   r2l s x = Some w -> r2l s y = Some c -> inoL s c = false -> ~ desc (W s) c w ->
   pos_ok (inoL s) (inoR s) (l2r s) (fkids (W s) w) s1 c pos ->
   let s' := do_move s c w pos y in
-  Inv Pp Pa s' /\ spec_apply rootL (W s) (IMove c w pos) = Some (W s') /\
+  Inv Pp Pa Pm s' /\ spec_apply rootL (W s) (IMove c w pos) = Some (W s') /\
   In c (fkids (W s') w) /\ pos <= length (remove_id c (fkids (W s) w)).
 Proof.
-  intros HI HyP HxP Ek Hw Hc HLc Hnd Hpos s'.
+  intros HI HyP HxM Ek Hw Hc HLc Hnd Hpos s'.
+  assert (HxP : In x Pp) by (apply (I_Pm _ _ _ _ HI); exact HxM).
   assert (Hxlt : x < fnext R) by (apply R_lt; eapply I_Pp; eauto).
-  destruct (Inv_r2l_lt _ _ _ HI _ _ Hw) as [Hwlt _].
-  destruct (Inv_r2l_lt _ _ _ HI _ _ Hc) as [Hclt Hylt].
+  destruct (Inv_r2l_lt _ _ _ _ HI _ _ Hw) as [Hwlt _].
+  destruct (Inv_r2l_lt _ _ _ _ HI _ _ Hc) as [Hclt Hylt].
   assert (Hyx : In y (fkids R x)) by (rewrite Ek; apply in_or_app; right; left; reflexivity).
-  pose proof (I_wf _ _ _ HI) as Hwf.
-  assert (Hlc : l2r s c = Some y) by (apply (I_bij _ _ _ HI); exact Hc).
-  assert (Hwalive : desc (W s) rootL w) by (eapply I_aliveL; [exact HI|apply (I_bij _ _ _ HI); exact Hw]).
+  pose proof (I_wf _ _ _ _ HI) as Hwf.
+  assert (Hlc : l2r s c = Some y) by (apply (I_bij _ _ _ _ HI); exact Hc).
+  assert (Hwalive : desc (W s) rootL w) by (eapply I_aliveL; [exact HI|apply (I_bij _ _ _ _ HI); exact Hw]).
   assert (Hcalive : desc (W s) rootL c) by (eapply I_aliveL; eauto).
   assert (Hy : desc R rootR y) by (eapply I_aliveR; eauto).
   assert (Hwe : is_comment (ltag (flab (W s) w)) = false) by (eapply target_elem; eauto).
   assert (HRy : inoR s y = false).
-  { destruct (inoR s y) eqn:E; [|reflexivity]. destruct (I_o1R _ _ _ HI y E) as (wv & ? & ? & Hv & Hm & _).
+  { destruct (inoR s y) eqn:E; [|reflexivity]. destruct (I_o1R _ _ _ _ HI y E) as (wv & ? & ? & Hv & Hm & _).
     congruence. }
   assert (Hcroot : c <> rootL).
-  { intros ->. assert (y = rootR) by (eapply (Inv_inj_r _ _ _ HI); [exact Hc|apply (I_root _ _ _ HI)]).
-    subst y. eapply (wf_root_top R rootR HwfR); eauto. }
+  { intros ->. assert (y = rootR) by (eapply (Inv_inj_r _ _ _ _ HI); [exact Hc|apply (I_root _ _ _ _ HI)]).
+    subst y. apply (wf_root_top R rootR HwfR x Hxlt Hyx). }
   assert (HW' : W s' = move_f (W s) c w pos) by reflexivity.
   assert (Hwf' : wf_forest (W s') rootL) by (apply wf_move; assumption).
   assert (Hple : pos <= length (remove_id c (fkids (W s) w))).
@@ -796,13 +807,14 @@ Proof.
     rewrite E6, remove_id_app, remove_id_cons_ne by (intros ->; congruence).
     rewrite app_length. cbn. lia. }
   split; [|split; [|split]].
-  - apply (Inv_place Pp Pa s s' x y w c pos s1 s2); try assumption; try reflexivity.
+  - apply (Inv_place Pp Pa Pm s s' x y w c pos s1 s2); try assumption; try reflexivity.
     + left. exact Hlc.
     + intros p Hp Hpw. rewrite HW'. apply (fkids_move_other _ rootL); assumption.
     + rewrite HW'. apply (fkids_move_t _ rootL); assumption.
     + intros m Hm. rewrite HW'. apply alive_move; assumption.
     + rewrite HW'. apply alive_move; assumption.
-    + rewrite (I_cmt _ _ _ HI c y Hlc). reflexivity.
+    + intros m _. rewrite HW', flab_move. reflexivity.
+    + rewrite HW', flab_move. apply (I_cmt _ _ _ _ HI c y Hlc).
   - cbn [spec_apply].
     rewrite (proj2 (alive_iff _ _ c Hwf) Hcalive), (proj2 (alive_iff _ _ w Hwf) Hwalive).
     replace (Nat.eqb c rootL) with false by (symmetry; apply Nat.eqb_neq; exact Hcroot).
@@ -810,6 +822,39 @@ Proof.
     unfold kidsof. apply Nat.leb_le in Hple. rewrite Hple. reflexivity.
   - rewrite HW', (fkids_move_t _ rootL) by assumption. apply ins_at_In. left; reflexivity.
   - exact Hple.
+Qed.
+
+Lemma Inv_start_align Pp Pa Pm s y :
+  Inv Pp Pa Pm s -> In y Pp -> Inv Pp Pa (Pm ++ [y]) s.
+Proof.
+  intros HI Hy. constructor.
+  - apply (I_wf _ _ _ _ HI).
+  - apply (I_bij _ _ _ _ HI).
+  - apply (I_root _ _ _ _ HI).
+  - apply (I_aliveL _ _ _ _ HI).
+  - apply (I_aliveR _ _ _ _ HI).
+  - apply (I_cmt _ _ _ _ HI).
+  - apply (I_Pp _ _ _ _ HI).
+  - apply (I_Pa _ _ _ _ HI).
+  - intros x Hx. apply in_app_or in Hx as [Hx|[<-|[]]]; [apply (I_Pm _ _ _ _ HI); exact Hx|exact Hy].
+  - apply (I_vis _ _ _ _ HI).
+  - apply (I_par _ _ _ _ HI).
+  - intros v Hv. destruct (I_o1R _ _ _ _ HI v Hv) as (w & xp & wp & H1 & H2 & H3 & H4).
+    exists w, xp, wp. repeat split; try tauto. apply in_or_app. left; exact H3.
+  - apply (I_o1L _ _ _ _ HI).
+  - apply (I_o2 _ _ _ _ HI).
+  - apply (I_o3 _ _ _ _ HI).
+Qed.
+
+Lemma unmarked_before_align Pp Pa Pm s rn :
+  Inv Pp Pa Pm s -> rn < fnext R -> ~ In rn Pm -> forall v, In v (fkids R rn) -> inoR s v = false.
+Proof.
+  intros HI Hrn Hn v Hv. destruct (inoR s v) eqn:E; [|reflexivity]. exfalso.
+  destruct (I_o1R _ _ _ _ HI v E) as (w & xp & wp & H1 & H2 & H3 & H4 & _).
+  assert (xp = rn).
+  { apply (wf_uparent R rootR HwfR xp rn v); try assumption. apply R_lt.
+    apply (I_Pp _ _ _ _ HI). apply (I_Pm _ _ _ _ HI). exact H3. }
+  subst xp. contradiction.
 Qed.
 
 End Inv.
